@@ -322,6 +322,15 @@ def g_powers(ctx, rng, i):
     for cnt in (63, 64, 65):
         big = np.stack([_rand_matrix(rng, n, j % 4) for j in range(cnt)]).astype(float)
         g.TransformationCollection(big).inverse()
+    # ... and with two or more collection axes (the batched kernels index the determinant per matrix)
+    big = np.stack([_rand_matrix(rng, n, j % 4) for j in range(80)]).astype(float)
+    for shape in ((8, 8), (16, 4), (4, 16), (2, 40), (2, 4, 8))[i % 5:][:2]:
+        cnt = int(np.prod(shape))
+        tb = g.TransformationCollection(big[:cnt].reshape(shape + (n, n)))
+        tb.inverse()
+        tb ** -1
+        h = gen.nonzero_vec(rng, n, 5)
+        tb * (g.Line(h) if dim == 2 else g.Plane(h))
 
 
 GROUPS = [
